@@ -195,6 +195,10 @@ def classify(check, harness, linemap=None):
             return "requires"
     if not f.startswith("src/"):
         return "tool"
+    if desc.startswith("NaN on "):
+        # CBMC's float-NaN instrumentation: not a panic in Rust semantics; a NaN that matters to a
+        # property is caught by the harness's own clauses.  Counted under tool_checks_ignored.
+        return "tool"
     return "repo-safety"
 
 
